@@ -8,7 +8,8 @@ DIR=$(cd "$(dirname "$0")/.." && pwd)
 FILTER="$1"
 SCR=/dev/shm/verif-selftest-$$
 fail=0
-for kind in must_fail must_pass; do
+# SELFTEST_KIND=must_fail|must_pass restricts the run to one side of the corpus
+for kind in ${SELFTEST_KIND:-must_fail must_pass}; do
   for p in "$DIR"/selftest/$kind/*.patch; do
     [ -f "$p" ] || continue
     base=$(basename "$p" .patch)
